@@ -422,6 +422,15 @@ class Engine:
                 fields = list(v.vars[step[1]]); i = rest[0]
                 fields[i] = s.set_path(fields[i], rest[1:], new)
                 vs = dict(v.vars); vs[step[1]] = tuple(fields); return Enum(v.ty, v.disc, vs)
+            if isinstance(v, Lazy) and rest and isinstance(rest[0], int):
+                # a store into one field of a variant of a lazily instantiated enum: materialise that variant (its other fields stay lazy)
+                var = step[1]; n = rest[0] + 1
+                en = mir.strip_generics(v.ty or "").split("::")[-1] if v.ty else None
+                if s.decls is not None and en in getattr(s.decls, 'enums', {}):
+                    for (vn, kind, fs) in s.decls.enums[en]:
+                        if vn == var: n = max(n, len(fs))
+                e = Enum(v.ty or 'enum', v.disc, {var: tuple(v.kid(f'{var}.{j}') for j in range(n))})
+                return s.set_path(e, path, new)
             raise EngineError(f'set downcast of {v!r}')
         if step[0] == 'i':
             if hasattr(v, 'index_set'): return v.index_set(s, step[1], rest, new)
